@@ -103,6 +103,39 @@ def boundary_agreement(root, tab, points, width, rs):
     return dict(row=[float(t) for t in X[i]], likelihood=float(L[i]), log_likelihood=float(LL[i]), exp_log_likelihood=float(E[i])), len(rows)
 
 
+def wide_evidence(root, tab, points, width, rs):
+    """evidence stored in float64 / int64 that single precision cannot hold: values a hair (1e-9 relative) inside and outside
+    every support edge and histogram break, compared with an independent float64 evaluation of the circuit's semantics
+    (harness/circuits.py:py_likelihood).  The query must be answered at the assignment supplied, not at a rounded one."""
+    from deeprob.spn.structure.leaf import Uniform, Isotonic
+    edges = {}
+    for o in tab.objs:
+        if isinstance(o, Uniform):
+            edges.setdefault(int(o.scope[0]), []).extend([float(o.start), float(o.start + o.width)])
+        if isinstance(o, Isotonic):
+            edges.setdefault(int(o.scope[0]), []).extend(float(b) for b in o.breaks)
+    if not edges:
+        return None, 0
+    dom = tab.domains(); scope = sorted(tab.root_scope())
+    rows = []
+    for v, es in edges.items():
+        for e in sorted(set(es))[:6]:
+            for sgn in (-1.0, 1.0):
+                base = {u: int(rs.choice(dom[u])) for u in scope}
+                x = np.array(G.np_row(base, width, points), dtype=np.float64)
+                x[v] = e + sgn * 1e-9 * max(1.0, abs(e))
+                rows.append(x)
+    X = np.array(rows, dtype=np.float64)
+    L, LL, E = impl_eval(root, X)
+    ref = np.array([G.py_likelihood(root, x) for x in X])
+    for name, got in (("likelihood", L), ("exp(log_likelihood)", E)):
+        ok = np.abs(got - ref) <= 1e-3 * np.maximum(np.abs(got), np.abs(ref)) + 1e-6
+        if not ok.all():
+            i = int(np.argmin(ok))
+            return dict(query=name, row_float64=[repr(float(t)) for t in X[i]], returned=float(got[i]), circuit_semantics=float(ref[i])), len(rows)
+    return None, len(rows)
+
+
 def doms_coq(dom):
     return C.coq_list([f"({v}%nat, " + C.coq_list([C.zlit(x) for x in d]) + ")" for v, d in sorted(dom.items())])
 
@@ -260,6 +293,12 @@ def run(pid, tier, seed, replay, mode):
             if bad[0] and dist.get("boundary_viol", 0) < 3:
                 dist["boundary_viol"] = dist.get("boundary_viol", 0) + 1
                 rep.violation(dict(kind="likelihood-and-log-likelihood-disagree-at-a-support-edge", circuit=tab.brief(), **bad[0]), True)
+        if mode == "full" and points:
+            bad = wide_evidence(root, tab, points, width, rs)
+            dist["float64_edge_rows"] = dist.get("float64_edge_rows", 0) + bad[1]
+            if bad[0] and dist.get("wide_viol", 0) < 3:
+                dist["wide_viol"] = dist.get("wide_viol", 0) + 1
+                rep.violation(dict(kind="float64-evidence-evaluated-at-a-rounded-assignment", circuit=tab.brief(), **bad[0]), True)
         # python-side clause of C02: a row with every variable missing has log-likelihood exactly 0
         if mode == "marg":
             for c, ll in zip(rows, LL):
